@@ -13,6 +13,9 @@ Inductive pred :=
 | PGt (i : nat) (k : Z)          (* lambda r: r[i] > k        (numeric cell) *)
 | PEqC (i : nat) (c : cell)      (* lambda r: r[i] == c *)
 | PEqCols (i j : nat)            (* lambda r: r[i] == r[j] *)
+| PMulGt (i j : nat) (k : Z)     (* lambda r: r[i] * r[j] > k      / "a * b > k"   (Python ints: unbounded) *)
+| PSqGt (i : nat) (k : Z)        (* lambda r: r[i] ** 2 > k        / "a ** 2 > k" *)
+| PAddGt (i j : nat) (k : Z)     (* lambda r: r[i] + r[j] > k      / "a + b > k" *)
 | PNot (p : pred).
 
 Fixpoint eval_pred (p : pred) (row : list cell) : bool :=
@@ -24,6 +27,9 @@ Fixpoint eval_pred (p : pred) (row : list cell) : bool :=
                end
   | PEqC i c => cell_eqb (nth i row CN) c
   | PEqCols i j => cell_eqb (nth i row CN) (nth j row CN)
+  | PMulGt i j k => match nth i row CN, nth j row CN with CI a, CI b => k <? a * b | _, _ => false end
+  | PSqGt i k => match nth i row CN with CI a => k <? a * a | _ => false end
+  | PAddGt i j k => match nth i row CN, nth j row CN with CI a, CI b => k <? a + b | _, _ => false end
   | PNot q => negb (eval_pred q row)
   end.
 
@@ -31,7 +37,9 @@ Fixpoint eval_pred (p : pred) (row : list cell) : bool :=
 Inductive expr :=
 | EConst (c : cell)
 | EAdd (i j : nat)               (* lambda r: r[i] + r[j]   (int+int / str+str) *)
-| EIsEq (i : nat) (c : cell).    (* lambda r: r[i] == c *)
+| EIsEq (i : nat) (c : cell)     (* lambda r: r[i] == c *)
+| EMul (i j : nat)               (* lambda r: r[i] * r[j]   / "a * b"    (ints) *)
+| ESq (i : nat).                 (* lambda r: r[i] ** 2     / "a ** 2"   (ints) *)
 
 Definition eval_expr (e : expr) (row : list cell) : cell :=
   match e with
@@ -43,6 +51,8 @@ Definition eval_expr (e : expr) (row : list cell) : cell :=
       | _, _ => CN
       end
   | EIsEq i c => CB (cell_eqb (nth i row CN) c)
+  | EMul i j => match nth i row CN, nth j row CN with CI a, CI b => CI (a * b) | _, _ => CN end
+  | ESq i => match nth i row CN with CI a => CI (a * a) | _ => CN end
   end.
 
 Inductive op :=
